@@ -87,6 +87,18 @@ Theorem C12_explain_tree_consistent : forall ln st,
   forall q d, wfq q -> forall e, explain ln st q d = Some e -> consistent ln e.
 Proof. exact explain_consistent. Qed.
 
+(* F42: the seek that explain issues on its fresh scorer.  With the `scorer.doc() > doc` guard (TermWeight::explain)
+   the DocSet::seek precondition target >= doc() always holds; without it (PhraseWeight, ConstWeight,
+   BooleanWeight::explain) it fails exactly when the clause's first match of the segment lies after the document. *)
+Theorem C12_guarded_explain_respects_seek_contract : forall first target,
+  forallb seek_pre (explain_seek_calls true first target) = true.
+Proof. exact guarded_explain_respects_seek_contract. Qed.
+
+Theorem C12_unguarded_explain_backward_seek_refuted :
+  (forall first target, forallb seek_pre (explain_seek_calls false first target) = false <-> known_f42 target [first] = true)
+  /\ exists first target, forallb seek_pre (explain_seek_calls false first target) = false.
+Proof. split; [exact unguarded_explain_violates_iff|exists 5%N, 2%N; reflexivity]. Qed.
+
 (* ---------------------------------------------------------------------------------------------- *)
 (** collectors *)
 
